@@ -268,6 +268,51 @@ def coldLoad (file : PwFile Id) : M (St Id × Ret) := loadUHash e (resetSt e) fi
 
 end
 
+/-! ## attaching to the segment (cache.NewSHM) -/
+
+/-- a SysV segment: the two header words and the index -/
+structure Seg (Id : Type) where
+  version : Int
+  size : Int
+  st : St Id
+
+inductive AttachRet where
+  | ok | errOpen | errVersion | errSize
+  deriving DecidableEq, Repr, Inhabited
+
+section
+variable {Id : Type} (e : Env Id)
+
+/-- cache.NewSHM(key, _, isCreate) against the segment registered under the key (`none`: there is none).
+shm.CreateShm asks for IPC_CREAT|IPC_EXCL first and reports `isNew` only when THAT call made the segment; on EEXIST it
+attaches to the existing one.  shm.OpenShm fails when there is none.  The header (Version, Size, Number = 0, Loaded = 0)
+is written only `if isNew` — a creator that meets a live segment leaves it exactly as it is.  Then the Version/Size
+handshake.  Result: the segment afterwards, isNew, the error. -/
+def newSHM (wantV wantS : Int) (seg : Option (Seg Id)) (isCreate : Bool) : Option (Seg Id) × Bool × AttachRet :=
+  match seg, isCreate with
+  | none, false => (none, false, .errOpen)
+  | none, true =>
+    -- a fresh segment is zero-filled; the header is written; the handshake then passes
+    (some { version := wantV, size := wantS, st := resetSt e }, true, .ok)
+  | some sg, _ =>
+    if sg.version ≠ wantV then (some sg, false, .errVersion)
+    else if sg.size ≠ wantS then (some sg, false, .errSize)
+    else (some sg, false, .ok)
+
+/-- a process starts the way main_init does: NewSHM(key, _, isCreate) and — `load` — LoadUHash with its .PASSWDS.
+Result: the segment afterwards, the attach result, isNew, what LoadUHash returned. -/
+def restart (wantV wantS : Int) (seg : Option (Seg Id)) (file : PwFile Id) (isCreate load : Bool) :
+    M (Option (Seg Id) × AttachRet × Bool × Option Ret) :=
+  match newSHM e wantV wantS seg isCreate with
+  | (some sg, isNew, .ok) =>
+    if load then do
+      let (s', r) ← loadUHash e sg.st file
+      pure (some { sg with st := s' }, .ok, isNew, some r)
+    else pure (some sg, .ok, isNew, none)
+  | (sg, isNew, err) => pure (sg, err, isNew, none)
+
+end
+
 /-! ## The id operations of the real build -/
 
 def toupper (c : Nat) : Nat := if 97 ≤ c ∧ c ≤ 122 then c - 32 else c   -- types.CcharToupper
@@ -385,6 +430,9 @@ def dumpIds (s : St (List Nat)) : String :=
 def dumpSt (s : St (List Nat)) (max : Nat) : String :=
   dumpChains s max ++ " nx=" ++ ",".intercalate (s.next.map showInt) ++ " id=" ++ dumpIds s ++
     " n=" ++ showInt s.number ++ " l=" ++ showInt s.loaded
+
+def showAttach : AttachRet → String
+  | .ok => "ok" | .errOpen => "erropen" | .errVersion => "errversion" | .errSize => "errsize"
 
 def showRet : Ret → String
   | .ok => "ok" | .errAdd => "erradd" | .errRemove => "errremove" | .errInvalidUID => "errinvaliduid" | .errFile => "errfile"
